@@ -191,6 +191,7 @@ pub fn derive_cfg(job: &Job) -> SimCfg {
         unicode_heavy: false,
         untitled_docs: r.chance(1, 8),
         preexisting_dicts: r.chance(1, 3),
+        big_docs: r.chance(1, 10),
     };
     gen_cfg.end_with_shutdown = {
         let f = job.params.get("focus").and_then(|v| v.as_str()).unwrap_or(mode);
@@ -994,6 +995,7 @@ pub fn run(job: &Job) -> RunResult {
     }
     seam::seed_random(crate::rng::mix64(job.seed ^ cfg.universe.wrapping_mul(0x9E37_79B9)));
     crate::corpus::UNICODE_HEAVY.with(|u| u.set(cfg.gen_cfg.unicode_heavy));
+    crate::corpus::BIG_DOCS.with(|u| u.set(cfg.gen_cfg.big_docs));
     let mut sim = Sim::new(job, cfg);
     if let Some(t) = &replay {
         if let Ok(s) = serde_json::from_value::<Vec<ScriptEntry>>(t["script"].clone()) {
